@@ -57,6 +57,15 @@ def generate(seed, tier, k):
     doc = {"kind": "c18", "seed": seed, "mesh": mesh, "field": {"kind": "Mixed3" if mixed else ("Field" if dim == 3 else r.choice(["PlaneStrain", "Field2D"]))}, "items": [{"type": "SolidBody", "umat": um, "density": density}]}
     if r.random() < 0.2:
         doc["items"][0]["multiplier"] = r.choice([0.5, 2.0, 3.0])
+    if not mixed and r.random() < 0.3:
+        # a second body on the same field (superposed material), with or without its own multiplier
+        E2 = gen.rfloat(r, 0.5, 10.0)
+        it2 = {"type": "SolidBody", "umat": {"name": "NeoHookeCompressible", "p": {"mu": round(E2 / 3, 4), "lmbda": round(E2, 4)}}, "density": gen.rfloat(r, 0.5, 8.0) * (1e-9 if density < 1e-6 else 1.0)}
+        if r.random() < 0.4:
+            it2["multiplier"] = r.choice([0.25, 2.0])
+        doc["items"].append(it2)
+        if r.random() < 0.5:
+            doc["items"].reverse()
     bc = r.choice(["none", "none", "clamp", "clamp", "partial", "points"])
     if bc == "none":
         doc["bc"] = {"case": "none"}
@@ -132,22 +141,20 @@ def independent_operators(doc, w, fixed_points=None):
     index arithmetic for the free unknowns."""
     fields = w.field.fields
     n = int(sum(f.values.size for f in fields))
-    item = w.items[0]
-    K = item.assemble.matrix().toarray() * doc["items"][0].get("multiplier", 1.0)
-    if K.shape != (n, n):
-        Kf = np.zeros((n, n))
-        Kf[: K.shape[0], : K.shape[1]] = K
-        K = Kf
-    rho = doc["items"][0]["density"]
     f0 = fields[0]
     d = f0.dim
-    eye = np.eye(d).reshape(d, d, 1, 1) if d > 1 else np.ones((1, 1))
-    fun = rho * (np.broadcast_to(eye, (d, d) + w.region.dV.shape) if d > 1 else np.ones(w.region.dV.shape))
-    # the mass form uses the plain (cartesian) volume element of the first field
-    plain = fem.Field(w.region, dim=d)
-    M0 = refmodel.assemble_bilinear([plain], [plain], w.region.dV, [fun], [False], [False], [(0, 0)])
+    K = np.zeros((n, n))
     M = np.zeros((n, n))
-    M[: M0.shape[0], : M0.shape[1]] = M0
+    plain = fem.Field(w.region, dim=d)
+    for spec, item in zip(doc["items"], w.items):
+        Ki = item.assemble.matrix().toarray() * spec.get("multiplier", 1.0)
+        K[: Ki.shape[0], : Ki.shape[1]] += Ki
+        rho = spec["density"]
+        eye = np.eye(d).reshape(d, d, 1, 1) if d > 1 else np.ones((1, 1))
+        fun = rho * (np.broadcast_to(eye, (d, d) + w.region.dV.shape) if d > 1 else np.ones(w.region.dV.shape))
+        # the mass form uses the plain (cartesian) volume element of the first field
+        M0 = refmodel.assemble_bilinear([plain], [plain], w.region.dV, [fun], [False], [False], [(0, 0)])
+        M[: M0.shape[0], : M0.shape[1]] += M0
     pres = world.expected_prescribed_from(w, w.boundaries)
     fixed = set(pres.keys())
     # points without cells are prescribed as well
@@ -183,7 +190,7 @@ def run(doc, log):
     mixed = doc["field"]["kind"] == "Mixed3"
     if mixed:
         log.count("mixed-container")
-    linear = doc["items"][0]["umat"]["name"] == "LinearElasticLargeStrain"
+    linear = all(i["umat"]["name"] == "LinearElasticLargeStrain" for i in doc["items"])
     spectra = []
     evaluated = False
     sig = []
@@ -354,7 +361,7 @@ def run(doc, log):
                         raise Violation(PROP, "rigid-motion-invariance", f"eigenvalue {val:.8e} of the spectrum is not found after a rigid motion of the mesh (nearest {other[np.abs(other - val).argmin()]:.8e})", site="FreeVibration.rigid-motion")
             log.count("rigid-twin-compared")
     return {
-        "signature": "|".join([w.mesh.cell_type, doc["field"]["kind"], doc["items"][0]["umat"]["name"], str(doc["bc"].get("list", [{}])[0].get("name")) + str(len(doc["bc"].get("list", []))), "".join(sig), str(doc.get("twin")), str([o.get("v0_seed") for o in doc["ops"] if o["op"] == "evaluate"][:2])]),
+        "signature": "|".join([w.mesh.cell_type, doc["field"]["kind"], "+".join(i["umat"]["name"] + ("*" if "multiplier" in i else "") for i in doc["items"]), str(doc["bc"].get("list", [{}])[0].get("name")) + str(len(doc["bc"].get("list", []))), "".join(sig), str(doc.get("twin")), str([o.get("v0_seed") for o in doc["ops"] if o["op"] == "evaluate"][:2])]),
         "nontrivial": bool(log.counters.get("eigenpairs-checked", 0)),
         "faults_fired": ["eigsh_" + doc["fault"]["kind"]] if sim.fired else [],
         "sim": {"eigen_solves": sim.calls, "operations": len(doc["ops"])},
